@@ -88,9 +88,13 @@ PROPS: Dict[str, Dict[str, Any]] = {
                          "dictItems_of_base",
                          "src_typeddict_sync", "src_typeddict_async", "src_typeddict_generic", "typedDictSync_eq",
                          "typedDictAsync_eq", "tGate_exec", "recGate_td", "tforFold_scan", "tScan_exec", "tLoopBody_step",
-                         "tforFold3_keys", "tFinal_keys", "tFinal_ok", "tTail_exec", "tdGate_dict_of_no_coercer"],
+                         "tforFold3_keys", "tFinal_keys", "tFinal_ok", "tTail_exec", "tdGate_dict_of_no_coercer",
+                         "src_dataclass_sync", "src_dataclass_async", "src_namedtuple_sync", "src_namedtuple_async",
+                         "src_class_generic", "src_class_same", "src_instance_to_dict", "dataclassSync_eq", "dataclassAsync_eq",
+                         "cGate_exec", "recGate_class", "clsGate_dict", "clsGate_inst", "clsGate_rej", "cFinal_keys",
+                         "cFinal_ok", "cTail_exec", "clsGate_dict_of_no_coercer"],
             "modules": ["KodaModel.Properties.C04", "KodaModel.Properties.C04DictAny", "KodaModel.Properties.C04Record",
-                        "KodaModel.Properties.C04TypedDict"],
+                        "KodaModel.Properties.C04TypedDict", "KodaModel.Properties.C04Class"],
             "level_note": "the C04_* theorems state the property about recordStep (all five record-shaped validators share it).  "
                           "Tie to the source: (1) TRANSLATOR, for DictValidatorAny - harness/pysrc.py rewrites "
                           "Generated/DictAnySrc.lean from the AST of DictValidatorAny._validate_to_tuple / "
@@ -105,7 +109,12 @@ PROPS: Dict[str, Dict[str, Any]] = {
                           "TypedDictValidator (the coercer gate; every later stage holds the coerced value): "
                           "src_typeddict_sync / src_typeddict_async, under the explicit side condition that what a "
                           "user-supplied coercer returns is a dict (none is configured by default: "
-                          "tdGate_dict_of_no_coercer).  DataclassValidator, NamedTupleValidator: hand-modelled.  (2) the correspondence stream, for all "
+                          "tdGate_dict_of_no_coercer); so are DataclassValidator and NamedTupleValidator (whose four methods "
+                          "are one text up to two renamings, src_class_same): src_dataclass_sync / _async, "
+                          "src_namedtuple_sync / _async = recordStep for the dataclass / namedtuple kind - an instance of "
+                          "exactly the target class is turned into a dict, the target class is called with the payloads as "
+                          "keyword arguments (the model's `construct`, defaults filled in).  All five record-shaped "
+                          "validators are now translated.  (2) the correspondence stream, for all "
                           "five.  Trusted: Lean kernel + propext/Quot.sound/Classical.choice; the translator and the "
                           "interpreter's reading of the Python subset; CPython for dict / set membership",
             "stream": "core", "opts": {"salt": "c04", "gen": ["streams", "gen_record_case"]},
